@@ -121,6 +121,10 @@ def run(ctx):
             work = [o if (len(o) > 1 and isinstance(o[1], str) and o[1].startswith("/shift")) else
                     [o[0]] + [("/work" + x if isinstance(x, str) and x.startswith("/") else x) for x in o[1:]] for o in work
                     if o[0] in ("makedir", "create", "open", "write", "hclose", "remove", "removedir", "removetree", "truncate", "seek", "setinfo")]
+            if i % 2 == 1:
+                # operations in the ROOT directory itself (the fixed region on FAT12/16): everything below /keep and /work is protected
+                work = [["makedir", "/made in the root"], ["create", "/root file.txt"], ["makedir", "/made in the root/second level"],
+                        ["open", "rf", "/root file.txt", "a"], ["write", "rf", "52" * (v.bpc + 3)], ["hclose", "rf"], ["removedir", "/made in the root/second level"]] + work
             ops = pre + work
             case = history.Case(label, img, ops, mount=dict(encoding=enc), meta=meta)
             ctx.evaluations += 1
